@@ -100,6 +100,9 @@ def check_case(acc, case, frontend) -> list[dict]:
             if code.startswith("dangling-refid") and DISCARDED.search(text):
                 # recorded finding: a directive parsed its body (registering ids / slugs) and then discarded the nodes
                 code = "dangling-refid:discarded-directive-content"
+            if code == "dangling-backref:footnote" and name == "transformed" and _in_unresolved_link(phases[0][1], detail, warn):
+                # recorded finding: docutils replaced an unresolvable '[.. [^a] ..](name)' link by a problematic node
+                code = "dangling-backref:footnote-reference-inside-unresolved-link"
             if code in ("duplicate-id", "id-registry-points-elsewhere") and detail.startswith("'equation-") and name.startswith("sphinx"):
                 code = "duplicate-id:sphinx-equation-label"  # recorded finding: duplicate '$$ .. $$ (label)' in Sphinx
             vs.append(mk(f"C03:{code}", {**case, "frontend": frontend}, "well-formed tree", {"phase": name, "detail": detail},
@@ -116,6 +119,22 @@ def check_case(acc, case, frontend) -> list[dict]:
             seen.add(v["signature"])
             out.append(v)
     return out
+
+
+def _in_unresolved_link(parsed_doc, detail, warn) -> bool:
+    """Is the id named in `detail` that of a footnote reference which, as parsed, sat inside a by-name link whose
+    name docutils then reported as unknown?"""
+    from docutils import nodes
+
+    rid = detail.strip("'\"")
+    for fr in parsed_doc.findall(nodes.footnote_reference):
+        if rid in fr.get("ids", []):
+            p = fr.parent
+            while p is not None:
+                if isinstance(p, nodes.reference) and "refname" in p and "Unknown target name" in warn:
+                    return True
+                p = p.parent
+    return False
 
 
 # --------------------------------------------------------------------------- generators
